@@ -67,7 +67,12 @@ def gen_case(rng, it, max_days=4000):
             r = int(rng.integers(1, 41))
         runs.append(r)
         tot += r
-    labels = np.repeat(np.arange(len(runs)), runs)[:m].astype(np.int32) + int(rng.integers(0, 1000))
+    # the value of a label only names its run: increasing ids, ids wrapping over a year end (..., 35, 36, 1, 2, ...),
+    # descending ids, arbitrary distinct ids incl. negative ones - always one distinct value per run
+    nr = len(runs)
+    ids = [np.arange(nr) + int(rng.integers(0, 1000)), (np.arange(nr) + int(rng.integers(0, nr + 1))) % nr + 1,
+           np.arange(nr)[::-1] * 3 - nr, rng.permutation(np.arange(-nr, nr))[:nr]][H.pick(it, 7, 4)]
+    labels = np.repeat(ids, runs)[:m].astype(np.int32)
     ykind = ["noise", "season", "const", "linear", "walk"][H.pick(it, 4, 5) if it % 7 else 2]
     if ykind == "const":
         x = np.full(n, int(rng.integers(-10000, 10001)))
